@@ -220,9 +220,9 @@ def port_strategy(tier):
     def build(exact):
         rate = kgen.weighted([(netlab.exact_rate(3, 16), 6), (st.just(0), 1)]) if exact else \
             st.sampled_from([1000.0, 9600, 1e6, 12345.678, 3e5, 0.0, 7777, 3e6, 2.4e10])
-        sizes = st.sampled_from([1, 2, 3, 5, 10, 100, 200, 500, 1000, 1500])
+        sizes = st.sampled_from([1, 2, 3, 5, 10, 100, 200, 500, 1000, 1500, 0, 1, 0])      # zero-length packets are legal
         wl = netlab.workload([0, 1, 2], n_max=60 if big else 30, exact=exact, sizes=sizes, min_size=3)
-        lim = kgen.weighted([(st.tuples(st.just(True), st.sampled_from([1000, 1500, 2000, 3000, 600, 100, 10, 5])), 4),
+        lim = kgen.weighted([(st.tuples(st.just(True), st.sampled_from([1000, 1500, 2000, 3000, 600, 100, 10, 5, 4, 2, 1])), 4),
                              (st.tuples(st.just(False), st.integers(1, 6)), 4),
                              (st.tuples(st.booleans(), st.none()), 1)])
         return st.fixed_dictionaries({
